@@ -7,7 +7,8 @@ from lib import vlib
 
 REASONS = {
     "C02": {"malformed_response", "bad_framing", "cert_invalid", "srep_sig_invalid", "midpoint_outside_delegation", "version_fields",
-            "proof_invalid", "proof_for_other_request", "nonce_not_echoed", "fault_rate", "unsolicited", "wrong_protocol"},
+            "proof_invalid", "proof_for_other_request", "nonce_not_echoed", "fault_rate", "unsolicited", "wrong_protocol",
+            "path_length_differs_under_one_root", "path_too_short_for_batch"},
     "C07": {"amplification", "reply_to_malformed"},
     "C08": {"panic", "wedged", "no_reply_to_valid"},
     "C09": {"no_reply_to_valid", "duplicate_reply", "to_wrong_sender", "proof_for_other_request", "nonce_not_echoed", "wrong_protocol",
